@@ -23,6 +23,31 @@ enum {
 	QB_VP_ARRAY_UNLOCK,		/* about to release grow_lock */
 	QB_VP_ARRAY_TABLE_READ,		/* about to read the bin table (a->bin / a->num_bins) */
 	QB_VP_ARRAY_TABLE_WRITE,	/* about to reallocate the bin table */
+
+	/* ring buffer: one point AFTER each access to shared state (a = value / index, b = extra) */
+	QB_VP_RB_SF_RD_WP = 200,	/* space_free: write_pt read (a = value) */
+	QB_VP_RB_SF_RD_RP,		/* space_free: read_pt read (a = value) */
+	QB_VP_RB_SF_DONE,		/* space_free: decided (a = free words); includes the q_len read when the pointers are equal */
+	QB_VP_RB_AL_ZERO,		/* alloc: length word cleared (a = index) */
+	QB_VP_RB_AL_ALLOC,		/* alloc: magic = ALLOC stored with release (a = index of the length word) */
+	QB_VP_RB_WR_COPY,		/* chunk_write: payload copied in (a = length) */
+	QB_VP_RB_CM_LEN,		/* commit: length word stored (a = index, b = length) */
+	QB_VP_RB_CM_WP,			/* commit: write_pt stored (a = new value) */
+	QB_VP_RB_CM_MAGIC,		/* commit: magic = MAGIC stored with release (a = index of the length word) */
+	QB_VP_RB_CM_POST,		/* commit: notifier posted (a = result) */
+	QB_VP_RB_RC_MAGIC,		/* reclaim: magic loaded with acquire (a = value, b = read_pt) */
+	QB_VP_RB_RC_CHECK,		/* reclaim: write_pt compared / magic checked (a = 1 chunk present, 0 not) */
+	QB_VP_RB_RC_SIZE,		/* reclaim: length word read (a = value) */
+	QB_VP_RB_RC_STEP,		/* reclaim: new read_pt computed from the length word (a = value) */
+	QB_VP_RB_RC_ZERO,		/* reclaim: length word cleared (a = index) */
+	QB_VP_RB_RC_DEAD,		/* reclaim: magic = DEAD stored with release (a = index of the length word) */
+	QB_VP_RB_RC_RP,			/* reclaim: read_pt stored (a = new value) */
+	QB_VP_RB_RD_WAIT,		/* read/peek: notifier waited (a = result) */
+	QB_VP_RB_RD_MAGIC,		/* read/peek: magic loaded with acquire (a = value, b = read_pt) */
+	QB_VP_RB_RD_CHECK,		/* read/peek: write_pt compared / magic checked (a = 1 chunk present, 0 not) */
+	QB_VP_RB_RD_REPOST,		/* read/peek: notification given back (a = 0 bad magic, 1 buffer too small) */
+	QB_VP_RB_RD_SIZE,		/* read/peek: length word read (a = value) */
+	QB_VP_RB_RD_COPY,		/* read: payload copied out (a = length) */
 };
 
 #endif /* QB_VERIF_HOOK_H_DEFINED */
